@@ -20,6 +20,7 @@ Doubles travel as u64 bit patterns, naturals / integers as decimal text.
                                                 -> ok epsK <dim> alpha c s <n> l2 epsP delta scale
   pert  <n> delta <d> b1…bd w1…wd               -> ok value g1 … gd
   clip  clip x1 … xd                            -> ok y1 … yd
+  bingacc uAu uOu <dims> b                      -> ok normConst codedProb kgmProb
 -/
 import DPL.Model.Samplers
 import DPL.Model.LogReg
@@ -130,6 +131,12 @@ def step (_ : Unit) (ws : List String) : Unit × String :=
           s!"ok {showF (perturbation b delta n w)} {showFs (perturbationGrad b delta n w)}"
         else "bad-op"
       | _, _, _, _ => "bad-op"
+    | ["bingacc", a, o, d, b] =>
+      match parseFs [a, o, b], d.toNat? with
+      | some [a, o, b], some d =>
+        let m := binghamNormConst d b
+        s!"ok {showF m} {showF (binghamAcceptCoded a o m d)} {showF (binghamAcceptKGM a o m d)}"
+      | _, _ => "bad-op"
     | "clip" :: args =>
       match parseFs args with
       | some (clip :: row) => s!"ok {showFs (clipRow row clip)}"
